@@ -354,6 +354,8 @@ type k09Ev struct {
 	sig   hotstuff.QuorumSignature // nil = absent
 	syms  []k09Sig
 	label string
+	// emptyOK: a BLS aggregate without participants whose point is the identity: it verifies and carries nothing
+	emptyOK bool
 }
 
 func (e k09Ev) term(me uint64) string {
@@ -568,7 +570,7 @@ func (w *k09World) kauriCase(s *verifStream, stream string, me int, haveBlocks [
 				refNil, refAgg, refSenders = true, map[uint64]bool{}, map[uint64]bool{}
 			}
 		case 'C':
-			if refActive && e.view == refView && e.sig != nil && len(e.syms) > 0 && k09Has(haveBlocks, refBlock) {
+			if refActive && e.view == refView && e.sig != nil && (len(e.syms) > 0 || e.emptyOK) && k09Has(haveBlocks, refBlock) {
 				ok, _ := k09Genuine(w, e.syms, refBlock)
 				for _, sg := range e.syms {
 					if refAgg[sg.lab] {
@@ -683,7 +685,7 @@ func (w *k09World) kauriCase(s *verifStream, stream string, me int, haveBlocks [
 	for _, f := range fails {
 		f(meta)
 	}
-	w.v.Case(s, fmt.Sprintf("(%s, %s, %s, %s, %s, %s, (%s, %s, %s))", w.members, gNs(sub), gBool(leaf), gNs(blockIDs),
+	w.v.Case(s, fmt.Sprintf("(%s, %s, %s, %s, %s, %s, %s, (%s, %s, %s))", w.members, gNs(sub), gBool(leaf), gNs(blockIDs), gBool(w.scheme == crypto.NameBLS12),
 		gList(kEv), gList(obsT), finAgg, gBool(k.aggSent), gNs(snd)), meta)
 }
 
@@ -816,6 +818,21 @@ func TestVerifC09(t *testing.T) {
 				contrib(w, "garbage-tail", 2, 5, w.genuine(n, B), w.garbage(w.id(n-1))),
 				contrib(w, "empty", 2, 5),
 			)
+		} else {
+			// BLS12 aggregates without any participant: the identity point verifies (and merges as a no-op), any other
+			// point does not (written as one garbage entry for the model, which only needs "does not verify")
+			inf := make([]byte, 96)
+			inf[0] = 0xc0
+			var bf crypto.Bitfield
+			s1, err1 := crypto.RestoreBLS12AggregateSignature(inf, bf)
+			s2, err2 := crypto.RestoreBLS12AggregateSignature(w.genuine(n, B).raw, bf)
+			if err1 != nil || err2 != nil {
+				panic(fmt.Sprint(err1, err2))
+			}
+			hs = append(hs,
+				k09Ev{kind: 'C', id: w.id(min(2, n)), view: 5, sig: s1, syms: nil, label: "bls-no-participants-infinity", emptyOK: true},
+				k09Ev{kind: 'C', id: w.id(min(3, n)), view: 5, sig: s2, syms: []k09Sig{{lab: 0}}, label: "bls-no-participants-genuine-point"},
+			)
 		}
 		return hs
 	}
@@ -902,6 +919,38 @@ func TestVerifC09(t *testing.T) {
 					}
 					w.kauriCase(sPerm, "kauri-perm-timer", me, have, evs)
 				})
+			}
+		}
+	}
+
+	// (a3) every scheme, every position: the children's contributions in a fixed order, each hostile contribution of
+	// the scheme's alphabet (aggregates with no participant, overlapping ones, foreign ones, ...) put before the first,
+	// in between, as the would-be quorum-completing one and after; and as the first contribution after the wait timer
+	for _, scheme := range []string{crypto.NameEDDSA, crypto.NameBLS12} {
+		n := 4
+		w := world(scheme, n)
+		B, C := w.blocks["B"], w.blocks["C"]
+		have := []*k09Block{B, C}
+		for _, me := range []int{1, 2} {
+			var singles []k09Ev
+			for i := 1; i <= n; i++ {
+				if i != me {
+					singles = append(singles, group(w, "single", uint64(i), 5, B, i))
+				}
+			}
+			for _, hv := range hostile(w, me, B, C) {
+				for pos := 0; pos <= len(singles); pos++ {
+					evs := []k09Ev{{kind: 'B', blk: B, view: 5}}
+					evs = append(evs, singles[:pos]...)
+					evs = append(evs, hv)
+					evs = append(evs, singles[pos:]...)
+					evs = append(evs, k09Ev{kind: 'T', view: 5})
+					w.kauriCase(sPerm, "kauri-positions-"+scheme, me, have, evs)
+				}
+				late := []k09Ev{{kind: 'B', blk: B, view: 5}, singles[0], {kind: 'T', view: 5}, hv}
+				late = append(late, singles[1:]...)
+				late = append(late, k09Ev{kind: 'T', view: 5})
+				w.kauriCase(sPerm, "kauri-positions-late-"+scheme, me, have, late)
 			}
 		}
 	}
@@ -1326,7 +1375,7 @@ func k09RealTimerRound(v *verifOut, s *verifStream, w *k09World, pl k09RealPlan,
 		f(meta)
 	}
 	leaf := len(tr.ReplicaChildren()) == 0
-	v.Case(s, fmt.Sprintf("(%s, %s, %s, %s, %s, %s, (%s, %s, %s))", w.members, gNs(sub), gBool(leaf), gNs([]uint64{uint64(B.id), uint64(C.id)}),
+	v.Case(s, fmt.Sprintf("(%s, %s, %s, %s, %s, %s, %s, (%s, %s, %s))", w.members, gNs(sub), gBool(leaf), gNs([]uint64{uint64(B.id), uint64(C.id)}), gBool(w.scheme == crypto.NameBLS12),
 		gList(evT), gList(obsT), finAgg, gBool(k.aggSent), gNs(snd)), meta)
 	return true
 }
